@@ -195,7 +195,7 @@ def gen_term(r):
     if k < 0.45:
         return ("flt", r.choice([0.5, 3.25, -2.5, 10.0, 0.1, 1234567.125, -0.001]))
     if k < 0.85:
-        return ("str", r.choice(["abc", "a b", "x|y|z", "", " pad ", "it's", "1,2", "#h", "@v", "a == b", "x -> y", "(q)", "a~b", "~hi~ there", "x ~ y", "[br", "q]"]))
+        return ("str", r.choice(["abc", "a b", "x|y|z", "", " pad ", "it's", "1,2", "#h", "@v", "a == b", "x -> y", "(q)", "a~b", "~hi~ there", "x ~ y", "[br", "q]", "C:\\temp\\new.csv", "\\theta", "a\\b"]))
     return ("regex", r.choice(["/a.b/", "/^[0-9]+$/", "/x|y/", "/\\d{2}/", "/^~[a-z]+~$/", "/q~r/"]))
 
 
